@@ -337,6 +337,10 @@ fn special(op: &str, pattern: &str, casei: bool, limit: Option<usize>, text: &st
                 _ => Some("PARSE-ERR".to_string()),
             }
         }
+        "parse_debug" => Some(match fancy_regex::Expr::parse_tree(pattern) {
+            Ok(t) => format!("{:?}", t.expr),
+            Err(e) => format!("PARSE-ERR:{:?}", e),
+        }),
         "escape" => {
             let e = fancy_regex::escape(pattern);
             let borrowed = matches!(e, std::borrow::Cow::Borrowed(_));
@@ -406,6 +410,16 @@ fn state_history(spec: &str) -> String {
             "C" => {
                 st.backtrack_cut(nums[0]);
                 stack.truncate(nums[0]);
+            }
+            "N" => {
+                // a negative look-around has just failed: exactly the alternatives created
+                // before it was entered must be left
+                if st.backtrack_count() != nums[0] {
+                    return format!(
+                        "MISMATCH at step {}: {} alternatives left after a failing negative look-around, expected {}",
+                        k, st.backtrack_count(), nums[0]
+                    );
+                }
             }
             _ => return format!("BAD-OP {}", op),
         }
